@@ -175,9 +175,33 @@ def outcome(text, props):
     return None
 
 
+PROBE = 'Table probe_after_reject {\n  id int\n}\n'
+_PROBE_EXPECT = {}
+
+
+def probe_leak(props, case, kind, size):
+    """No fragment of a rejected document leaks into a returned result: the next (valid) parse is unaffected."""
+    from pydbml import PyDBML
+    from ..extract import extract
+    try:
+        got = extract(PyDBML.parse(PROBE, allow_properties=True) if props else PyDBML.parse(PROBE))
+    except Exception as e:  # noqa
+        return [Viol(f'c07:leak:probe-raises:{type(e).__name__}', f'after a rejected document (fault: {kind}) a valid document is rejected: {e}', case, size=size)]
+    want = dict(project=None, enums=[], refs=[], groups=[], stickies=[])
+    bad = [k for k, v in want.items() if got[k] != v]
+    if bad or [t['name'] for t in got['tables']] != ['probe_after_reject'] or len(got['tables'][0]['columns']) != 1:
+        return [Viol('c07:leak', f'a fragment of the rejected document (fault: {kind}) leaked into the next result: tables '
+                                 f'{[t["name"] for t in got["tables"]]}, enums {len(got["enums"])}, refs {len(got["refs"])}, '
+                                 f'groups {len(got["groups"])}, stickies {len(got["stickies"])}, project {got["project"] is not None}', case, size=size)]
+    return []
+
+
 def judge(kind, text, props, case):
     import pyparsing as pp
     e = outcome(text, props)
+    leak = probe_leak(props, case, kind, len(text)) if e is not None else []
+    if leak:
+        return leak
     if e is None:
         return [Viol(f'c07:accepted:{kind}', f'malformed document (fault: {kind}) was parsed into a database', case, size=len(text))]
     if not isinstance(e, (pp.ParseBaseException, SyntaxError)):
